@@ -813,8 +813,11 @@ func (p *Program) RestoreTerminal() error {
 	if err := p.initTerminal(); err != nil {
 		return err
 	}
-	if err := p.initCancelReader(false); err != nil {
-		return err
+	if p.input != nil {
+		// As in Run: a program without input has no input reader to restart.
+		if err := p.initCancelReader(false); err != nil {
+			return err
+		}
 	}
 	if p.altScreenWasActive {
 		p.renderer.enterAltScreen()
